@@ -75,6 +75,9 @@ type LifeOp struct {
 	// Query (subscribe only): the kind of query of this call (query.go); "" is
 	// the valid Stream query.
 	Query string `json:"query,omitempty"`
+	// QOpts (subscribe only): optional fields of client.Query that are set
+	// besides (see Scenario.QOpts).
+	QOpts []string `json:"qopts,omitempty"`
 }
 
 // LScenario is one case of part "lifetime".
@@ -83,6 +86,7 @@ type LScenario struct {
 	Proto        bool      `json:"proto,omitempty"`
 	Plain        bool      `json:"plain,omitempty"`
 	NilCallbacks bool      `json:"nil_callbacks,omitempty"`
+	Callbacks    string    `json:"callbacks,omitempty"` // see Scenario.Callbacks
 	BaseDelay    int       `json:"base_delay"`
 	MaxDelay     int       `json:"max_delay"`
 	Timeout      int       `json:"timeout,omitempty"`
@@ -99,7 +103,7 @@ const maxLifeOps = 24
 
 // script is the half-A view of the scenario (transport script and delays).
 func (sc *LScenario) script() *Scenario {
-	return &Scenario{Client: sc.Client, Proto: sc.Proto, Plain: sc.Plain, NilCallbacks: sc.NilCallbacks,
+	return &Scenario{Client: sc.Client, Proto: sc.Proto, Plain: sc.Plain, NilCallbacks: sc.NilCallbacks, Callbacks: sc.Callbacks,
 		BaseDelay: sc.BaseDelay, MaxDelay: sc.MaxDelay, Timeout: sc.Timeout, Decoy: sc.Decoy, DecoyFirst: sc.DecoyFirst,
 		Attempts: sc.Attempts, Stop: "close"}
 }
@@ -108,6 +112,9 @@ func (sc *LScenario) validate() error {
 	s := sc.script()
 	s.Plain = false // the plain rules of half A concern its single stop action
 	if err := s.validate(); err != nil {
+		return err
+	}
+	if err := validCallbacks(sc.Plain, sc.NilCallbacks, sc.Callbacks); err != nil {
 		return err
 	}
 	if len(sc.Ops) > maxLifeOps {
@@ -133,6 +140,9 @@ func (sc *LScenario) validate() error {
 		}
 		if !knownQueryKind(op.Query) || (op.Query != "" && op.Kind != "subscribe") {
 			return fmt.Errorf("step %d: query kind %q", i, op.Query)
+		}
+		if err := validQOpts(op.QOpts); err != nil || (len(op.QOpts) > 0 && op.Kind != "subscribe") {
+			return fmt.Errorf("step %d: query options %q: %v", i, op.QOpts, err)
 		}
 	}
 	if sc.Plain {
@@ -263,14 +273,12 @@ func runLife(sc *LScenario, st *stats) *verr {
 	case sc.Plain:
 		c = &traceClient{Client: inner, w: w}
 		st.label("plain-client")
-	case sc.NilCallbacks:
-		c = client.Reconnect(&traceClient{Client: inner, w: w}, nil, nil)
-		st.label("reconnect-nil-callbacks")
 	default:
-		c = client.Reconnect(&traceClient{Client: inner, w: w},
+		var l string
+		c, l = mkReconnect(&traceClient{Client: inner, w: w}, sc.NilCallbacks, sc.Callbacks,
 			func() { w.record("disconnect", -1, "") },
 			func() { w.record("reset", -1, "") })
-		st.label("reconnect-client")
+		st.label(l)
 	}
 	q := client.Query{
 		Addrs:   []string{"c18"},
@@ -313,6 +321,7 @@ func runLife(sc *LScenario, st *stats) *verr {
 		return c.returned
 	}
 	finish := func(c *lifeCall, kind string, err error) {
+		w.notePanic(map[string]string{"ret": "Subscribe", "close-ret": "Close", "poll-ret": "Poll"}[kind]+" #"+fmt.Sprint(c.n), err)
 		w.mu.Lock()
 		c.returned, c.ret, c.err = true, w.now(), err
 		w.events = append(w.events, event{Kind: kind, Attempt: -1, At: c.ret, Note: fmt.Sprintf("#%d %v", c.n, err)})
@@ -527,7 +536,7 @@ func runLife(sc *LScenario, st *stats) *verr {
 		markStop(k.sub, "close", k.at)
 		calls = append(calls, k)
 		w.record("close-call", -1, fmt.Sprintf("#%d", k.n))
-		go func() { finish(k, "close-ret", c.Close()) }()
+		go func() { finish(k, "close-ret", guarded(c.Close)) }()
 		synctest.Wait()
 	}
 
@@ -631,8 +640,13 @@ ops:
 			cur = s
 			calls = append(calls, s)
 			s.callSeq = w.record("sub-call", -1, fmt.Sprintf("#%d", s.n))
-			sq := mkQuery(op.Query, q, w)
-			go func() { finish(s, "ret", c.Subscribe(ctx, sq, script.clientTypes()...)) }()
+			sq := mkQueryOpts(mkQuery(op.Query, q, w), op.QOpts)
+			for _, o := range op.QOpts {
+				st.label("query-opt:" + o)
+			}
+			go func() {
+				finish(s, "ret", guarded(func() error { return c.Subscribe(ctx, sq, script.clientTypes()...) }))
+			}()
 			synctest.Wait()
 		case "cancel":
 			if cur == nil {
@@ -684,7 +698,7 @@ ops:
 			}
 			calls = append(calls, p)
 			w.record("poll-call", -1, fmt.Sprintf("#%d", p.n))
-			go func() { finish(p, "poll-ret", c.Poll()) }()
+			go func() { finish(p, "poll-ret", guarded(c.Poll)) }()
 			synctest.Wait()
 			if !isReturned(p) {
 				st.label("poll-call-blocked-after-its-step")
@@ -758,7 +772,10 @@ ops:
 	st.attempts = w.nBegin
 	st.msgs = w.nextMsg
 	lifeLabels(sc, w, st, calls)
-	if v == nil {
+	if w.paniced != "" {
+		// (takes precedence: what followed the panic is its consequence)
+		v = newVerr("panic", "%s", w.paniced)
+	} else if v == nil {
 		v = judgeLife(sc, w, st, calls, deafUntilLocked(w, calls))
 	} else if v0 := attemptAfterClose(sc, w); v0 != nil {
 		// the more specific finding first
@@ -965,76 +982,12 @@ func judgeLife(sc *LScenario, w *world, st *stats, calls []*lifeCall, deaf map[i
 			}
 		}
 	}
-	// (4) callback discipline, per Subscribe call.
-	if !sc.Plain && !sc.NilCallbacks {
-		const (
-			idle = iota
-			running
-			ended
-			disc
-			outside // no Subscribe call is running
-		)
-		state, attempt, resets := outside, -1, 0
-		first := true
-		for _, e := range w.events {
-			switch e.Kind {
-			case "sub-call":
-				state, first, resets = idle, true, 0
-			case "sub-begin":
-				switch state {
-				case idle:
-					if !first && resets != 1 {
-						return newVerr("reset-discipline", "attempt %d began at %v after %d reset calls (want exactly one before each retry)", e.Attempt, e.At, resets)
-					}
-				case disc:
-					return newVerr("reset-discipline", "attempt %d began at %v without a reset call after the disconnect of attempt %d", e.Attempt, e.At, attempt)
-				case ended:
-					return newVerr("disconnect-discipline", "attempt %d began at %v without a disconnect call for ended attempt %d", e.Attempt, e.At, attempt)
-				case outside:
-					return newVerr("attempt-outside-subscribe", "attempt %d began at %v while no Subscribe call was running", e.Attempt, e.At)
-				default:
-					return newVerr("harness-error", "attempt %d began while attempt %d was running", e.Attempt, attempt)
-				}
-				state, attempt, first, resets = running, e.Attempt, false, 0
-			case "sub-end":
-				state = ended
-			case "disconnect":
-				switch state {
-				case ended:
-					state = disc
-				case disc, idle:
-					return newVerr("disconnect-discipline", "disconnect called again at %v for ended attempt %d (want once per ended attempt)", e.At, attempt)
-				case running:
-					return newVerr("disconnect-discipline", "disconnect called at %v while attempt %d was still running", e.At, attempt)
-				case outside:
-					return newVerr("disconnect-discipline", "disconnect called at %v while no Subscribe call was running", e.At)
-				}
-			case "reset":
-				switch state {
-				case disc:
-					state, resets = idle, 1
-				case idle:
-					resets++
-					if !first {
-						return newVerr("reset-discipline", "reset called %d times at %v before the retry after attempt %d", resets, e.At, attempt)
-					}
-					return newVerr("reset-discipline", "reset called at %v before the first attempt of a Subscribe call", e.At)
-				case ended:
-					return newVerr("reset-discipline", "reset called at %v before the disconnect call for ended attempt %d", e.At, attempt)
-				case running:
-					return newVerr("reset-discipline", "reset called at %v while attempt %d was running (want before the retry)", e.At, attempt)
-				case outside:
-					return newVerr("reset-discipline", "reset called at %v while no Subscribe call was running", e.At)
-				}
-			case "ret":
-				if state == ended {
-					return newVerr("disconnect-discipline", "Subscribe returned at %v without a disconnect call for ended attempt %d", e.At, attempt)
-				}
-				if state == running {
-					return newVerr("harness-error", "Subscribe returned at %v while attempt %d was running", e.At, attempt)
-				}
-				state = outside
-			}
+	// (4) callback discipline, per Subscribe call, for the callbacks that were
+	// given (callbacks.go).
+	if !sc.Plain {
+		hasDisc, hasReset := callbacksGiven(sc.NilCallbacks, sc.Callbacks)
+		if v := judgeCallbacks(cbEvents(w.events), hasDisc, hasReset, true); v != nil {
+			return v
 		}
 	}
 	// (6) after a Close call returned: at most the notifications of one further
